@@ -179,7 +179,9 @@ def main(argv=None):
         if rec.get("violations"):
             viol_records.append(rec)
 
+    phases = {}
     records = run_batch(pid, seeds, a.tier, a.workers, wall_budget=budget, progress=progress)
+    phases["explore"] = round(time.monotonic() - t_start, 1)
 
     # ---- determinism spot check: re-run the first two seeds, compare digests
     det = {"checked": 0, "mismatch": 0}
@@ -192,6 +194,7 @@ def main(argv=None):
                 harness_errors.append({"seed": r0["seed"], "harness_error":
                                        f"determinism spot check: digest {r0.get('digest')} != {r1.get('digest')}"})
 
+    phases["determinism_spot_check"] = round(time.monotonic() - t_start - sum(phases.values()), 1)
     # ---- known findings: replay the pinned witnesses, match signatures
     known = [k for k in load_known() if k["property"] == pid and k["status"] == "known"]
     known_hit = {}
@@ -221,6 +224,7 @@ def main(argv=None):
     for k in known_hit.values():
         print(f"KNOWN-FINDING: property={pid} {k['id']}: {k['what']}")
 
+    phases["known_findings"] = round(time.monotonic() - t_start - sum(phases.values()), 1)
     exit_code = 0
     reported = []
     seen_sigs = set()
@@ -238,12 +242,16 @@ def main(argv=None):
                     "property": pid, "seed": rec["seed"], "tier": a.tier,
                     "violation": {"sig": v["sig"], "detail": v.get("detail", "")[:2000]}})
         if not a.no_minimise and hasattr(mod, "minimise") and len(seen_sigs) <= 2:
+            t_m = time.monotonic()
             try:
                 rep = run_in_fork(_minimise_in_child, (pid, rep), timeout=900)
             except ForkError as e:
                 print("minimisation failed (keeping the unminimised replay):", str(e)[:500])
+            print(f"minimised in {time.monotonic() - t_m:.1f}s: {rep.get('minimised')}", flush=True)
         path = write_replay(pid, rep)
+        t_m = time.monotonic()
         ok, out = confirm_replay(path)
+        print(f"replayed in a fresh interpreter in {time.monotonic() - t_m:.1f}s: reproduced={ok}", flush=True)
         if ok:
             print(f"VIOLATION property={pid} replay={path}")
             print("  signature:", key)
@@ -256,7 +264,9 @@ def main(argv=None):
         if len(reported) >= 3:
             break
 
+    phases["minimise_and_confirm"] = round(time.monotonic() - t_start - sum(phases.values()), 1)
     wall = time.monotonic() - t_start
+    print("phases:", phases, flush=True)
     if not a.no_evidence:
         ev = build_evidence(mod, pid, a.tier, base, records, wall, det, known_hit, reported, harness_errors)
         os.makedirs(a.evidence_dir, exist_ok=True)
